@@ -91,11 +91,14 @@ def det4 (m : M44 α) : α :=
   - m.x01 * (m.x10 * (m.x22 * m.x33 - m.x23 * m.x32) - m.x12 * (m.x20 * m.x33 - m.x23 * m.x30) + m.x13 * (m.x20 * m.x32 - m.x22 * m.x30))
   + m.x02 * (m.x10 * (m.x21 * m.x33 - m.x23 * m.x31) - m.x11 * (m.x20 * m.x33 - m.x23 * m.x30) + m.x13 * (m.x20 * m.x31 - m.x21 * m.x30))
   - m.x03 * (m.x10 * (m.x21 * m.x32 - m.x22 * m.x31) - m.x11 * (m.x20 * m.x32 - m.x22 * m.x30) + m.x12 * (m.x20 * m.x31 - m.x21 * m.x30))
-/-- the homogeneous `w` of the three points from which `plane * M` rebuilds the plane (`d·n`, `d·n + D×n`, `d·n + D`, with
-`D = eᵢ × n` for whichever coordinate axis `eᵢ` the code picks) does not vanish -/
+/-- the homogeneous `w` of the three points from which `plane * M` rebuilds the plane (`d·n`, `d·n + D×n`, `d·n + D`) does not vanish,
+for every direction `D = eᵢ × n` the code CAN pick: a coordinate axis `eᵢ` whose `|eᵢ × n|` is maximal (the code takes one of those;
+nothing is asked of the other axes) -/
 def MulM44Defined (pl : Plane3 α) (m : M44 α) : Prop :=
   wOf (smul pl.distance pl.normal) m ≠ 0 ∧
   ∀ D, (D = cross ⟨1, 0, 0⟩ pl.normal ∨ D = cross ⟨0, 1, 0⟩ pl.normal ∨ D = cross ⟨0, 0, 1⟩ pl.normal) →
+    (dot (cross ⟨1, 0, 0⟩ pl.normal) (cross ⟨1, 0, 0⟩ pl.normal) ≤ dot D D ∧ dot (cross ⟨0, 1, 0⟩ pl.normal) (cross ⟨0, 1, 0⟩ pl.normal) ≤ dot D D ∧
+      dot (cross ⟨0, 0, 1⟩ pl.normal) (cross ⟨0, 0, 1⟩ pl.normal) ≤ dot D D) →
     wOf (add (smul pl.distance pl.normal) (cross D pl.normal)) m ≠ 0 ∧ wOf (add (smul pl.distance pl.normal) D) m ≠ 0
 
 end ImathVerif.Geo
